@@ -35,6 +35,14 @@ func SerializeKey(key jwk.Key) ([]byte, error) {
 		return nil, fmt.Errorf("failed to extract raw key: %w", err)
 	}
 
+	// x509.MarshalPKCS8PrivateKey panics if the private scalar of an EC key does not fit in the size of the
+	// curve's order (for example, a JWK whose "d" is longer than the curve allows)
+	if ec, ok := rawKey.(*ecdsa.PrivateKey); ok {
+		if ec.Curve == nil || ec.D == nil || (ec.D.BitLen()+7)/8 > (ec.Curve.Params().N.BitLen()+7)/8 {
+			return nil, errors.New("invalid EC private key")
+		}
+	}
+
 	switch r := rawKey.(type) {
 	case []byte: // Symmetric keys
 		return r, nil
